@@ -46,9 +46,10 @@ CHECKS = {
         text="Lean theorems: min-sep bin = searchsorted-left entry, length check only refusal; the merge loop terminates within "
              "its fuel and exits with all pairs separated, bases current and the table listing exactly the groups present (no "
              "re-sort assumed); reported group bases pairwise >= minSep(upper) apart for every percentile/look-back/exclusion "
-             "setting (F2a repaired); re-merge pass: nothing merged implies components pairwise >= minSep apart. The equality "
-             "'reported layer base = component base' (F2b repaired) is checked by the correspondence on every split scene, "
-             "not yet a theorem.",
+             "setting (F2a repaired); re-merge pass: nothing merged implies components pairwise >= minSep apart; and (no "
+             "ceilometer excluded) the values metarize('layers') feeds to calc_base_height for a split layer are exactly those of "
+             "its mixture component, for any row order / look-back / percentile (F2b repaired), so reported layer bases are the "
+             "component bases.",
         ref='§6 C06', technique='Lean 4 proof (loop invariant + termination by fuel) + end-to-end correspondence incl. exact min-sep ties'),
     'C07': dict(
         text="Lean theorems on the cropping model: no MSA => nothing cropped, flag false; flag iff #hits above MSA+buffer > "
@@ -61,7 +62,8 @@ CHECKS = {
         text="PARTIAL. Proved: the cascade model is total on accepted input with in-domain parameters and third-party answers "
              "of the documented shape (run returns a chunk; no AmpycloudError of the code itself, no assert, no "
              "IndexError/TypeError is reachable; without assumption A3 on the selected mixture only the empty-component "
-             "AmpycloudError or the bare assert remain); construction refusals are AmpycloudError. Not provable by any model "
+             "AmpycloudError or the bare assert remain); the kernels are only consulted inside their documented domains "
+             "(two kernels agreeing there give the same run); construction refusals are AmpycloudError. Not provable by any model "
              "of ampycloud: that scikit-learn/statsmodels/numpy/pandas do not raise inside their documented domain - that "
              "residue is searched (all scene families, random in-domain parameters; any exception is a violation).",
         ref='§6 C08', technique='Lean 4 proof of totality of the cascade model + crash search on the real code (search part is exploration)'),
@@ -140,7 +142,8 @@ CHECKS = {
     'C20': dict(
         category='other',
         text="PARTIAL. Proved on the model: every table position the plot reads exists (n_* = table length for every chunk run "
-             "returns), marker/colour indices are taken modulo the list length (any number of sets), the style context is "
+             "returns), marker/colour indices are taken modulo the list length (any number of sets), ncomp lies in the keys -1,1,2,3 of "
+             "the symbol table, the style context is "
              "restored whatever the body does, the plot reads the chunk only. Searched on the real code, not proved "
              "(matplotlib cannot be modelled): diagnostic() on chunks from all families incl. no hits / single hit / VV / "
              "zero-okta / more sets than marker styles x upto x show_ceilos x ref-METAR x formats, in sequence in one process: no "
